@@ -344,6 +344,7 @@ func runC07(c *Ctx) {
 	c.Ob("TERMINAL-COMMENTS", "leaf-writers", token.NoPos, len(leaf) >= 5, true, "%d leaf writers of terminal nodes identified from writeNode's cases: %s", len(leaf), strings.Join(sortedBoolKeys(leaf), ","))
 
 	c07OverrideKeys(c, pk, pa, nodeIface, termIface)
+	c07HasCommentCoversTokens(c, pk, pa, nodeIface)
 	c07WriterCoverage(c, pk, nodeIface)
 	c07Comparators(c, pk)
 	c07FirstOutputNoBlank(c, pk)
